@@ -46,7 +46,8 @@ class PresenceChecker:
             ot = OrderType([["q"]], [], self.R)
             self._world(cfg, ot, tq, expected=lambda ot: False, label="pair never added")
         for removal in (True, False):
-            for n in range(1, self.max_n + 1):
+            # accumulative presence only reads the first start and the largest id: two intervals suffice
+            for n in range(1, (self.max_n if removal else min(self.max_n, 2)) + 1):
                 syms, cons = ["q"], []
                 for i in range(1, n + 1):
                     syms += ["a%d" % i, "b%d" % i]
@@ -54,8 +55,10 @@ class PresenceChecker:
                     if i > 1:
                         cons.append(("b%d" % (i - 1), 2, "<=", "a%d" % i, 0))
                 if not removal:
-                    syms.append("M")
+                    # M: the largest snapshot id; K: any snapshot id (e.g. the most recently created one)
+                    syms += ["M", "K"]
                     cons.append(("b%d" % n, 0, "<=", "M", 0))
+                    cons.append(("K", 0, "<=", "M", 0))
                 cfg = dict(cls=self.cls, directed=self.directed, removal=removal, exists=True, intervals=n)
                 # flattened query
                 ot0 = enumerate_order_types(syms, cons, self.R)
